@@ -558,7 +558,7 @@ func (v *Verifier) writeReplay(file, prop, name, reason string, g *Group, r *Fun
 // pinned: removing a dereference is a harmless edit.
 func lockedKind(k string) bool {
 	switch k {
-	case "post", "inv", "monitor", "assert", "lemma", "cover", "escapable", "stable", "waitlevel":
+	case "post", "inv", "monitor", "assert", "lemma", "cover", "escapable", "stable", "waitlevel", "setonce":
 		return true
 	}
 	return false
